@@ -31,7 +31,7 @@ ASSUMPTIONS = [
     "involved (corner, extent, result)",
     "for an invalid cell number any of -1 / NaN / an exception is accepted",
 ]
-OBLIGATIONS = {"derived:clip": 20, "derived:two-rows-or-more": 20, "invalid-cell:scalar-forms": 100, "outside:first-double-beyond-the-origin-sides": 100, "outside:left": 100, "outside:right": 100, "outside:bottom": 100,
+OBLIGATIONS = {"many-points": 100, "derived:clip": 20, "derived:two-rows-or-more": 20, "invalid-cell:scalar-forms": 100, "outside:first-double-beyond-the-origin-sides": 100, "outside:left": 100, "outside:right": 100, "outside:bottom": 100,
                "outside:top": 100, "outside:diag": 100, "inside": 1000,
                "grid:1row": 3, "grid:1col": 3, "invalid-cell": 50,
                "neighbours": 200, "rowcol": 200, "xyvalues": 20,
@@ -634,7 +634,44 @@ def run_derived_case(ctx, case):
                       lambda: {"cell": good, "form": type(form).__name__, "got": rc})
 
 
+def run_many_points(ctx):
+    """coord2cell on hundreds of thousands to millions of points, at counts next to every
+    round number with two significant digits (and one more than twice such a number): the
+    answer for each point is the one it gets in a call of a thousand points"""
+    Grid = G()
+    gr = Grid("many", 9, 7, cellsize=0.5, xllcorner=-1.25, yllcorner=10.0)
+    rng = np.random.default_rng(ctx.seed + 77)
+    base = np.column_stack([rng.uniform(-2.5, 4.5, 1000), rng.uniform(9.0, 14.5, 1000)])
+    base[::7] = gr.cell2coord(rng.integers(0, 63, size=len(base[::7])))
+    exp0 = np.asarray(gr.coord2cell(base.copy()))
+    sizes = sorted({n_ for a in range(10, 100) for e in (4, 5)
+                    for n_ in (a * 10 ** e - 1, a * 10 ** e, a * 10 ** e + 1,
+                               2 * a * 10 ** e + 1) if n_ <= 4000001} |
+                   {2 ** k + d for k in range(17, 22) for d in (-1, 0, 1)})
+    mine = [n_ for i, n_ in enumerate(sizes) if i % ctx.nshards == ctx.shard]
+    for n_ in mine:
+        if ctx.out_of_time():
+            break
+        reps = -(-n_ // 1000)
+        off = int(rng.integers(0, 1000))
+        pts = np.roll(np.tile(base, (reps, 1)), off, axis=0)[:n_]
+        exp = np.roll(np.tile(exp0, reps), off)[:n_]
+        ctx.evaluated()
+        ctx.api("coord2cell")
+        ctx.tag("many-points")
+        got = np.asarray(gr.coord2cell(pts))
+        bad = np.where(got != exp)[0] if got.shape == exp.shape else np.array([0])
+        ctx.check("coord2cell.many-points", len(bad) == 0,
+                  "coord2cell|differs-in-a-call-with-very-many-points",
+                  {"kind": "manypoints", "n": int(n_)},
+                  lambda: {"npoints": int(n_), "first_wrong_point": int(bad[0]),
+                           "wrong": int(len(bad)), "got": int(got[bad[0]]) if got.shape ==
+                           exp.shape else None, "expected": int(exp[bad[0]])})
+    ctx.nontrivial("manypoints", len(mine))
+
+
 def run(ctx):
+    run_many_points(ctx)
     if ctx.shard == 0:
         run_huge_grid(ctx)
     rng = ctx.rng(1)
@@ -672,4 +709,6 @@ def replay(ctx, case):
         return run_integer_case(ctx, case)
     if case.get("kind") == "derived":
         return run_derived_case(ctx, case)
+    if case.get("kind") == "manypoints":
+        return run_many_points(ctx)
     run_geom_case(ctx, case)
